@@ -11,6 +11,7 @@ use rt::run::{self, ParentArgs, Plan, Tier, WorkerArgs};
 
 mod hist_sized;
 mod hist_sized_ops;
+mod hist_thin;
 mod plans;
 mod sched;
 
